@@ -187,6 +187,7 @@ def apply_reference(repo):
             _thread_none_tests(repo.funcs[q].node)
     repo.struct_objects = expand_struct_objects(repo, ref)
     repo.unrolled_tables = unroll_constant_tables(repo, ref)
+    repo.sentinel_getattrs = sentinel_getattr_guards(repo, ref)
     repo.dict_get_guards = dict_get_guards(repo, ref)
     repo.dict_gets = dict_get_to_membership(repo, ref)
     renamed = {}
@@ -1024,6 +1025,28 @@ def expand_struct_objects(repo, ref):
     return done
 
 
+def _mapping_mutators(repo, chain):
+    """functions that store into / delete from / clear the mapping named by the chain's last attribute (by name)"""
+    name = chain[-1]
+    out = set()
+    for q, fi in repo.funcs.items():
+        for n in walk_own(fi.node):
+            if isinstance(n, (ast.Assign, ast.Delete)):
+                for t in n.targets:
+                    if isinstance(t, ast.Subscript):
+                        c2 = _chain(t.value)
+                        if c2 is not None and c2[-1] == name:
+                            out.add(q)
+                    c = _chain(t)
+                    if c is not None and c[-1] == name and len(c) > 1 and fi.name != "__init__":
+                        out.add(q)
+            elif isinstance(n, ast.Call) and isinstance(n.func, ast.Attribute) and n.func.attr in ("update", "setdefault", "pop", "popitem", "clear", "__setitem__"):
+                c = _chain(n.func.value)
+                if c is not None and c[-1] == name:
+                    out.add(q)
+    return out
+
+
 def _never_none_mapping(repo, chain):
     """the mapping named by the chain (module global X, or self.X) only ever holds values that are not None: every binding of X
     in the package is a dict display / dict() / defaultdict(...) whose values are displays, lambdas, non-None constants or names of
@@ -1123,6 +1146,135 @@ def _never_none_mapping(repo, chain):
     return mutators
 
 
+def _sentinels(repo, mod):
+    """module-level names bound once to object() and used only as the default of .get / getattr and in `is` / `is not` tests:
+    a private 'absent' marker that can never be a stored value"""
+    cached = getattr(mod, "_sentinel_names", None)
+    if cached is not None:
+        return cached
+    cands = set()
+    count = {}
+    for st in mod.tree.body:
+        if isinstance(st, ast.Assign) and len(st.targets) == 1 and isinstance(st.targets[0], ast.Name):
+            count[st.targets[0].id] = count.get(st.targets[0].id, 0) + 1
+            if isinstance(st.value, ast.Call) and isinstance(st.value.func, ast.Name) and st.value.func.id == "object" and not st.value.args and not st.value.keywords:
+                cands.add(st.targets[0].id)
+    out = set()
+    for name in cands:
+        if count.get(name) != 1:
+            continue
+        ok = True
+        for n in ast.walk(mod.tree):
+            if isinstance(n, ast.Name) and n.id == name and isinstance(n.ctx, ast.Load):
+                p_ = getattr(n, "_parent", None)
+                if isinstance(p_, ast.Compare) and len(p_.ops) == 1 and isinstance(p_.ops[0], (ast.Is, ast.IsNot)) and p_.comparators[0] is n:
+                    continue
+                if isinstance(p_, ast.Call) and p_.args and p_.args[-1] is n and ((isinstance(p_.func, ast.Attribute) and p_.func.attr == "get" and len(p_.args) == 2)
+                                                                                 or (isinstance(p_.func, ast.Name) and p_.func.id == "getattr" and len(p_.args) == 3)):
+                    continue
+                ok = False
+            elif isinstance(n, ast.Name) and n.id == name and isinstance(n.ctx, (ast.Store, ast.Del)) and not isinstance(getattr(n, "_parent", None), ast.Assign):
+                ok = False
+            elif isinstance(n, ast.Global) and name in n.names:
+                ok = False
+        if ok:
+            out.add(name)
+    mod._sentinel_names = out
+    return out
+
+
+def _absent_marker(repo, fi, call):
+    """what D.get(k[, default]) returns for a missing key: 'None', a sentinel name, or False when it is something else"""
+    if len(call.args) == 1:
+        return "None"
+    d = call.args[1]
+    if isinstance(d, ast.Constant) and d.value is None:
+        return "None"
+    if isinstance(d, ast.Name) and d.id in _sentinels(repo, fi.module):
+        return d.id
+    return False
+
+
+def _is_marker(e, marker):
+    if marker == "None":
+        return isinstance(e, ast.Constant) and e.value is None
+    return isinstance(e, ast.Name) and e.id == marker
+
+
+def sentinel_getattr_guards(repo, ref):
+    """w = getattr(o, "name", S)          if hasattr(o, "name"):
+       if w is not S:            ->            w = o.name
+           B                                   B
+    for a sentinel S (see _sentinels) and a local o: hasattr is getattr catching AttributeError, exactly what the three-argument
+    form does; (also the `is S` polarity with a leaving suite, as in dict_get_guards)"""
+    done = {}
+    for q, fi in repo.funcs.items():
+        if fi.is_lambda or q not in ref:
+            continue
+        sents = _sentinels(repo, fi.module)
+        if not sents:
+            continue
+        changed = True
+        while changed:
+            changed = False
+            for owner, field, blk in _blocks(fi.node):
+                for i in range(len(blk) - 1):
+                    st, nx = blk[i], blk[i + 1]
+                    if not (isinstance(st, ast.Assign) and len(st.targets) == 1 and isinstance(st.targets[0], ast.Name) and isinstance(st.value, ast.Call)
+                            and isinstance(st.value.func, ast.Name) and st.value.func.id == "getattr" and len(st.value.args) == 3 and not st.value.keywords
+                            and isinstance(st.value.args[0], ast.Name) and isinstance(st.value.args[1], ast.Constant) and isinstance(st.value.args[1].value, str)
+                            and st.value.args[1].value.isidentifier() and isinstance(st.value.args[2], ast.Name) and st.value.args[2].id in sents):
+                        continue
+                    w, o, attr, S = st.targets[0].id, st.value.args[0].id, st.value.args[1].value, st.value.args[2].id
+                    if w == o:
+                        continue
+                    if not (isinstance(nx, ast.If) and isinstance(nx.test, ast.Compare) and len(nx.test.ops) == 1 and isinstance(nx.test.ops[0], (ast.Is, ast.IsNot))
+                            and isinstance(nx.test.left, ast.Name) and nx.test.left.id == w and _is_marker(nx.test.comparators[0], S)):
+                        continue
+                    present_first = isinstance(nx.test.ops[0], ast.IsNot)
+                    absent = nx.orelse if present_first else nx.body
+                    if any(isinstance(x, ast.Name) and x.id == w and isinstance(x.ctx, ast.Load) for s_ in absent for x in ast.walk(s_)):
+                        continue
+                    rest = blk[i + 2:]
+                    if any(isinstance(x, ast.Name) and x.id == w and isinstance(x.ctx, ast.Load) for s_ in rest for x in ast.walk(s_)) and present_first:
+                        continue
+                    bind = ast.parse("%s = %s.%s" % (w, o, attr)).body[0]
+                    if present_first:
+                        new_if = ast.parse("if hasattr(%s, %r):\n    pass" % (o, attr)).body[0]
+                        new_if.body = [bind] + nx.body
+                        new_if.orelse = nx.orelse
+                        fresh = [new_if]
+                    else:
+                        if not _always_leaves(nx.body) and not nx.orelse:
+                            continue
+                        new_if = ast.parse("if not hasattr(%s, %r):\n    pass" % (o, attr)).body[0]
+                        new_if.body = nx.body
+                        if nx.orelse:
+                            new_if.orelse = [bind] + nx.orelse
+                            fresh = [new_if]
+                        else:
+                            fresh = [new_if, bind]
+                    for s_ in fresh:
+                        ast.fix_missing_locations(s_)
+                    fresh = ast.parse("\n".join(ast.unparse(s_) for s_ in fresh)).body
+                    for s_ in fresh:
+                        for y in ast.walk(s_):
+                            ast.copy_location(y, st)
+                            for ch_ in ast.iter_child_nodes(y):
+                                ch_._parent = y
+                        s_._parent = owner
+                    blk[i:i + 2] = fresh
+                    _invalidate(owner)
+                    done.setdefault(q, []).append(w)
+                    changed = True
+                    break
+                if changed:
+                    break
+    if done:
+        _clear_analysis_caches()
+    return done
+
+
 def dict_get_guards(repo, ref):
     """w = D.get(k)                       if k in D:                  w = D.get(k)                  if k not in D:
        if w is not None:        ->            w = D[k]                if w is None:        ->           A        (A leaves)
@@ -1145,7 +1297,8 @@ def dict_get_guards(repo, ref):
                     if not (isinstance(st, ast.Assign) and len(st.targets) == 1 and isinstance(st.targets[0], ast.Name) and isinstance(st.value, ast.Call)
                             and isinstance(st.value.func, ast.Attribute) and st.value.func.attr == "get" and not st.value.keywords and 1 <= len(st.value.args) <= 2):
                         continue
-                    if len(st.value.args) == 2 and not (isinstance(st.value.args[1], ast.Constant) and st.value.args[1].value is None):
+                    marker = _absent_marker(repo, fi, st.value)
+                    if marker is False:
                         continue
                     w = st.targets[0].id
                     key = st.value.args[0]
@@ -1153,9 +1306,9 @@ def dict_get_guards(repo, ref):
                     if dch is None or not isinstance(key, (ast.Name, ast.Constant)) or (isinstance(key, ast.Name) and key.id == w):
                         continue
                     if not (isinstance(nx, ast.If) and isinstance(nx.test, ast.Compare) and len(nx.test.ops) == 1 and isinstance(nx.test.ops[0], (ast.Is, ast.IsNot))
-                            and isinstance(nx.test.left, ast.Name) and nx.test.left.id == w and isinstance(nx.test.comparators[0], ast.Constant) and nx.test.comparators[0].value is None):
+                            and isinstance(nx.test.left, ast.Name) and nx.test.left.id == w and _is_marker(nx.test.comparators[0], marker)):
                         continue
-                    if _never_none_mapping(repo, dch) is None:
+                    if marker == "None" and _never_none_mapping(repo, dch) is None:
                         continue
                     present_first = isinstance(nx.test.ops[0], ast.IsNot)
                     dtxt, ktxt = ast.unparse(st.value.func.value), ast.unparse(key)
@@ -1229,7 +1382,8 @@ def dict_get_to_membership(repo, ref):
                 if not (isinstance(st, ast.Assign) and len(st.targets) == 1 and isinstance(st.targets[0], ast.Name) and isinstance(st.value, ast.Call)
                         and isinstance(st.value.func, ast.Attribute) and st.value.func.attr == "get" and not st.value.keywords and 1 <= len(st.value.args) <= 2):
                     continue
-                if len(st.value.args) == 2 and not (isinstance(st.value.args[1], ast.Constant) and st.value.args[1].value is None):
+                marker = _absent_marker(repo, fi, st.value)
+                if marker is False:
                     continue
                 w = st.targets[0].id
                 if w in ref_locals:
@@ -1252,6 +1406,8 @@ def dict_get_to_membership(repo, ref):
                 if not all(id(x) in later for x in loads):
                     continue
                 mut = _never_none_mapping(repo, dch)
+                if mut is None and marker != "None":
+                    mut = _mapping_mutators(repo, dch)
                 if mut is None:
                     continue
                 if q in mut:
@@ -1271,7 +1427,7 @@ def dict_get_to_membership(repo, ref):
                 for x in loads:
                     p_ = getattr(x, "_parent", None)
                     if isinstance(p_, ast.Compare) and p_.left is x and len(p_.ops) == 1 and isinstance(p_.ops[0], (ast.Is, ast.IsNot)) \
-                            and isinstance(p_.comparators[0], ast.Constant) and p_.comparators[0].value is None:
+                            and _is_marker(p_.comparators[0], marker):
                         tests.append(p_)
                     else:
                         reads.append(x)
